@@ -501,6 +501,9 @@ struct MemEngine : Engine {
             if (after_adj && m < W && c.kind == OP_LOAD) st->probes["partial_load_flush_against_inaccessible_page"]++;
             if (before_adj) st->probes["range_starts_right_after_inaccessible_page"]++;
             if (c.n == 0 && mem_op) st->probes["n0_calls"]++;
+            if (mem_op && !is_gs && len && ((WIN + c.p) >> 32) != ((WIN + c.p + len - 1) >> 32)) st->probes["addressed_range_contains_multiple_of_2^32"]++;
+            if (is_gs) { bool lo = false, hi = false; for (unsigned i = 0; i < m && i < c.idx.size(); ++i) { std::uintptr_t a = WIN + c.p + (std::uintptr_t)(c.idx[i] * (std::int64_t)t->elem); if ((a >> 32) == ((WIN + c.p) >> 32)) lo = true; else hi = true; }
+                if (lo && hi) st->probes["gather_scatter_active_lanes_on_both_sides_of_a_multiple_of_2^32"]++; }
             if (is_gs && wild) st->probes["gather_scatter_with_wild_inactive_indices"]++;
             if (mem_op && !is_gs && !aligned_form && W > 1 && (c.p % t->vec_align)) st->probes["vector_misaligned_pointer"]++;
             if (poison) st->faults["stale_stack_and_register_poison"]++;
@@ -630,6 +633,9 @@ struct MemEngine : Engine {
         if (hits_bad) st->probes["prefetch_range_touches_inaccessible_memory"]++;
         if (!c.use_raw && last_pf_end == c.p && last_pf_key == (c.pw * 3 + c.plevel) && c.p % PG == 0 && page_state(pages, c.p) != 'W') st->probes["prefetch_stream_continues_into_inaccessible_page"]++;
         last_pf_end = c.use_raw ? (std::size_t)-1 : c.p + bytes; last_pf_key = c.pw * 3 + c.plevel;
+        { std::uintptr_t a0 = c.use_raw ? c.praw : WIN + c.p, a1 = a0 + (bytes ? bytes - 1 : 0);
+          if (bytes && a1 < a0) st->probes["prefetch_range_wraps_address_space"]++;
+          else if (bytes && (a0 >> 32) != (a1 >> 32)) { st->probes["prefetch_range_contains_multiple_of_2^32"]++; if (!hits_bad) st->probes["prefetch_valid_range_contains_multiple_of_2^32"]++; } }
         if (ptr == "null") st->probes["prefetch_null_pointer"]++;
         if (bytes == 0) st->probes["prefetch_n0"]++;
         if (!ok && abort_reason == 4) {
